@@ -4,7 +4,7 @@
    hook-exported key sets of the two decoder tables). *)
 From V.lib Require Import Base.
 From V.c04 Require Import C04Model C04AsmModel C04ContainerProofs.
-From V.c03 Require Import C03Model C03Spec C03Registry C03Proofs C03CanonProofs C03LeafModel C03LeafProofs C03LeafBoxProofs.
+From V.c03 Require Import C03Model C03Spec C03Registry C03Proofs C03CanonProofs C03LeafModel C03LeafProofs C03LeafBoxProofs C03LeafInstProofs.
 Open Scope N_scope.
 
 (* Encode to an io.Writer and EncodeSW to a slice writer: identical bytes or both fail, for every container tree and
@@ -119,6 +119,43 @@ Theorem C03_senc_large_header_differs :
 Proof. exact senc_large_header_differs. Qed.
 Print Assumptions C03_senc_large_header_differs.
 
+(* ---- the leaf hypotheses of the framing theorems, instantiated with the pair models ----
+   pair_leaves: DecodeBox / DecodeBoxSR dispatch trun, senc and mdat to the models of their own two decoders (every other leaf
+   type to the C04 standard leaves).  It satisfies the leaf contract, and every payload the reader-path decoder accepts is a
+   canonical leaf: the SliceReader-path decoder accepts it too, consumes exactly it, and both report Size() = 8 + len. *)
+Theorem C03_pair_leaves_ok : leaf_ok pair_leaves.
+Proof. exact pair_leaves_ok. Qed.
+Print Assumptions C03_pair_leaves_ok.
+
+Theorem C03_pair_canon_trun : forall p t, (lenN p < 4294967288)%N ->
+  trun_body_r (mkH name_trun (8 + lenN p) 8) p = Ok t -> canon_leaf pair_leaves name_trun p.
+Proof. exact pair_canon_trun. Qed.
+Print Assumptions C03_pair_canon_trun.
+
+Theorem C03_pair_canon_senc : forall p v, (8 <= lenN p < 4294967288)%N ->
+  senc_after_body_r (mkH name_senc (8 + lenN p) 8) p = Ok v -> canon_leaf pair_leaves name_senc p.
+Proof. exact pair_canon_senc. Qed.
+Print Assumptions C03_pair_canon_senc.
+
+Theorem C03_pair_canon_mdat : forall p, (lenN p <= max_normal_payload)%N -> canon_leaf pair_leaves name_mdat p.
+Proof. exact pair_canon_mdat. Qed.
+Print Assumptions C03_pair_canon_mdat.
+
+Theorem C03_pair_canon_large_mdat : forall p, (lenN p < 4294967280)%N -> canon_large pair_leaves name_mdat p.
+Proof. exact pair_canon_large_mdat. Qed.
+Print Assumptions C03_pair_canon_large_mdat.
+
+(* C03_decode_agree_canonical and C03_file_boxes_agree with no leaf hypothesis left for trun, senc, mdat *)
+Theorem C03_pair_decode_agree_canonical : forall c, cwf pair_leaves c -> fits c ->
+  fst (box_sr pair_leaves (cenc c)) = Ok (erase c) /\ fst (box_r pair_leaves (cenc c)) = Ok (BBox (erase c)).
+Proof. exact pair_decode_agree_canonical. Qed.
+Print Assumptions C03_pair_decode_agree_canonical.
+
+Theorem C03_pair_file_boxes_agree : forall cs, Forall (cwf pair_leaves) cs -> (lenN (cencs cs) < 4294967296)%N ->
+  fst (file_sr pair_leaves (cencs cs)) = Ok (map erase cs) /\ fst (file_r pair_leaves (cencs cs)) = Ok (map erase cs).
+Proof. exact pair_file_boxes_agree. Qed.
+Print Assumptions C03_pair_file_boxes_agree.
+
 (* the two dispatch tables register the same box types (regenerated from /repo on every run) *)
 Theorem C03_registry : keys_decoders = keys_decoders_sr.
 Proof. exact registry_equal. Qed.
@@ -177,4 +214,20 @@ Example ex_trun_box_sr : leafbox_sr (framed name_trun ex_trun_body [1;2;3]%N)
 Proof. vm_compute. reflexivity. Qed.
 Example ex_senc_box : leafbox_r (framed name_senc [0;0;0;2; 0;0;0;1; 0;1; 0;5;0;0;0;9]%N [])
   = Ok (LSenc (mkSenc 0 2 1 [0;1; 0;5;0;0;0;9]%N 24 true), 24).
+Proof. vm_compute. reflexivity. Qed.
+
+(* a fragment: moof{traf{trun, senc}} followed by an mdat behind a 16-byte header, leaves decoded by the pair models *)
+Example ex_senc_body : list N := [0;0;0;2; 0;0;0;1; 0;1; 0;5;0;0;0;9]%N.
+Example ex_frag : list ctree :=
+  [CNode name_moof [CNode name_traf [CLeaf name_trun ex_trun_body; CLeaf name_senc ex_senc_body]]; CLarge name_mdat [1;2;3;4]%N].
+Example ex_frag_wf : Forall (cwf pair_leaves) ex_frag.
+Proof.
+  constructor; [|constructor; [|constructor]].
+  - cbn [cwf]. split; [reflexivity|]. split; [reflexivity|]. split; [|exact I].
+    split; [reflexivity|]. split; [reflexivity|]. split; [|split; [|exact I]].
+    + split; [reflexivity|]. eapply pair_canon_trun; [vm_compute; reflexivity|vm_compute; reflexivity].
+    + split; [reflexivity|]. eapply pair_canon_senc; [vm_compute; split; [discriminate|reflexivity]|vm_compute; reflexivity].
+  - cbn [cwf]. split; [reflexivity|]. apply pair_canon_large_mdat. vm_compute. reflexivity.
+Qed.
+Example ex_frag_trees : map erase ex_frag = [Node name_moof [Node name_traf [Leaf name_trun 36; Leaf name_senc 24]]; Leaf name_mdat 20].
 Proof. vm_compute. reflexivity. Qed.
